@@ -254,7 +254,7 @@ fn main() {
         }
         stats.insert(name, st);
     }
-    if only.is_none() || only.as_deref() == Some("probe") {
+    if only.as_ref().map(|o| o.contains("probe")).unwrap_or(true) {
         probes::run_probes(bud.opts.max_bit_len, &mut rep);
     }
     // Curve25519 field chips (not exposed by ZkStdLib): circuits built from scratch
